@@ -4,8 +4,24 @@ package main
 // elements removed and a valid IdP signature re-applied (struct-level model `spstruct`).
 
 import (
+	"bytes"
+	"encoding/base64"
+	"errors"
 	"fmt"
+	"io"
+	"net/http"
+	"net/http/httptest"
+	"net/url"
+	"os"
+	"path/filepath"
+	"runtime"
 	"strings"
+	"time"
+
+	"github.com/crewjam/saml"
+	"github.com/crewjam/saml/logger"
+	"github.com/crewjam/saml/samlidp"
+	"github.com/crewjam/saml/samlsp"
 )
 
 func init() { gens["C09"] = (*Ctx).genC09 }
@@ -81,4 +97,364 @@ func (c *Ctx) genC09() {
 			c.count("c09-removed", fmt.Sprint(len(removed)))
 		}
 	}
+	c.c09Fuzz()
+	c.c09Bombs()
+	c.c09Resolver()
+	c.c09KeyDescriptors()
 }
+
+// withTimeout runs f and reports a hang
+func withTimeout(f func() string, d time.Duration) string {
+	ch := make(chan string, 1)
+	go func() { ch <- safely(f) }()
+	select {
+	case r := <-ch:
+		return r
+	case <-time.After(d):
+		return "timeout"
+	}
+}
+
+func (c *Ctx) mutate(b []byte) []byte {
+	out := append([]byte{}, b...)
+	for k := 1 + c.rng.Intn(4); k > 0 && len(out) > 0; k-- {
+		p := c.rng.Intn(len(out))
+		switch c.rng.Intn(8) {
+		case 0:
+			out[p] ^= 1 << uint(c.rng.Intn(8))
+		case 1:
+			q := p + 1 + c.rng.Intn(40)
+			if q > len(out) {
+				q = len(out)
+			}
+			out = append(out[:p], out[q:]...)
+		case 2:
+			q := c.rng.Intn(len(out))
+			if q < p {
+				p, q = q, p
+			}
+			out = append(out[:q], append(append([]byte{}, out[p:q]...), out[q:]...)...)
+		case 3:
+			out = out[:p]
+		case 4:
+			tok := []string{"<", ">", "</", "/>", "\"", "'", "&", "&#x0;", "<!--", "-->", "<![CDATA[", "]]>", "<?xml?>", "<!DOCTYPE x [<!ENTITY a \"b\">]>", "xmlns:x=\"y\"", "\x00", "=", ":", " "}[c.rng.Intn(19)]
+			out = append(out[:p], append([]byte(tok), out[p:]...)...)
+		case 5:
+			out[p] = byte(c.rng.Intn(256))
+		case 6: // drop a whole element-looking span
+			if j := bytes.IndexByte(out[p:], '>'); j >= 0 {
+				if i := bytes.LastIndexByte(out[:p+1], '<'); i >= 0 {
+					out = append(out[:i], out[p+j+1:]...)
+				}
+			}
+		default: // duplicate an element-looking span
+			if j := bytes.IndexByte(out[p:], '>'); j >= 0 {
+				if i := bytes.LastIndexByte(out[:p+1], '<'); i >= 0 {
+					span := append([]byte{}, out[i:p+j+1]...)
+					out = append(out[:p+j+1], append(span, out[p+j+1:]...)...)
+				}
+			}
+		}
+	}
+	return out
+}
+
+func readFixture(name string) []byte {
+	repo := os.Getenv("VERIF_REPO")
+	if repo == "" {
+		repo = "/repo"
+	}
+	b, err := os.ReadFile(filepath.Join(repo, name))
+	if err != nil {
+		return nil
+	}
+	return b
+}
+
+func (c *Ctx) c09Fuzz() {
+	n := 400
+	if !c.quick() {
+		n = 20000
+	}
+	now := baseTime
+	saml.TimeNow = func() time.Time { return now }
+	responses := []string{"testdata/SP_SamlResponse", "testdata/TestSPCanHandleOneloginResponse_response", "testdata/TestSPCanHandlePlaintextResponse_response",
+		"testdata/TestSPCanHandleOktaResponseEncryptedSignedAssertion_response", "testdata/TestXswPermutationOneIsRejected_response", "testdata/TestSPMultipleAssertions",
+		"testdata/TestSPRejectsInjectedComment_response", "testdata/TestSPRealWorldKeyInfoHasRSAPublicKeyNotX509Cert_response"}
+	metas := []string{"testdata/SP_IDPMetadata", "testdata/TestCanParseMetadata_metadata.xml", "samlsp/testdata/testshib_metadata.xml", "samlidp/testdata/sp_metadata.xml", "samlsp/testdata/idp_metadata.xml"}
+	requests := []string{"testdata/idp_authn_request.xml", "testdata/TestIDPCanHandleRequestWithExistingSession_decodedRequest", "testdata/TestIDPMakeResponse_request_buffer"}
+	artifacts := []string{"testdata/TestParseXMLArtifactResponse_response"}
+	cfg := baseCfg()
+	s := c.realSP(cfg)
+	setGlobals(cfg, ms(now))
+	idp := c.newIDP(registry{})
+	srv, _ := samlidp.New(samlidp.Options{URL: mustURL(idpRoot), Key: c.key("idp").Key, Certificate: c.key("idp").Cert, Store: &samlidp.MemoryStore{}, Logger: logger.DefaultLogger})
+	decode := func(b []byte) []byte {
+		if d, err := base64.StdEncoding.DecodeString(strings.TrimSpace(string(b))); err == nil && len(d) > 0 {
+			return d
+		}
+		return b
+	}
+	type target struct {
+		name string
+		pool []string
+		run  func(b []byte) string
+	}
+	targets := []target{
+		{"ParseXMLResponse", responses, func(b []byte) string { return canonParse(s.ParseXMLResponse(b, []string{"id-req1"}, mustURL(acsURL))) }},
+		{"ParseResponse/POST", responses, func(b []byte) string {
+			req, _ := http.NewRequest("POST", acsURL, nil)
+			req.PostForm = url.Values{"SAMLResponse": {base64.StdEncoding.EncodeToString(b)}}
+			req.Form = req.PostForm
+			return canonParse(s.ParseResponse(req, []string{"id-req1"}))
+		}},
+		{"ParseXMLArtifactResponse", append(artifacts, responses[:2]...), func(b []byte) string {
+			return canonParse(s.ParseXMLArtifactResponse(b, []string{"id-req1"}, "id-resolve", mustURL(acsURL)))
+		}},
+		{"ValidateLogoutResponseForm", responses, func(b []byte) string {
+			if err := s.ValidateLogoutResponseForm(base64.StdEncoding.EncodeToString(b)); err != nil {
+				return "err"
+			}
+			return "ok"
+		}},
+		{"ValidateLogoutResponseRedirect", responses, func(b []byte) string {
+			if err := s.ValidateLogoutResponseRedirect(base64.StdEncoding.EncodeToString(deflate(b))); err != nil {
+				return "err"
+			}
+			return "ok"
+		}},
+		{"NewIdpAuthnRequest+Validate", requests, func(b []byte) string {
+			q := url.Values{"SAMLRequest": {base64.StdEncoding.EncodeToString(deflate(b))}}
+			r, _ := http.NewRequest("GET", idpSSOURL+"?"+q.Encode(), nil)
+			req, err := saml.NewIdpAuthnRequest(idp, r)
+			if err != nil {
+				return "err"
+			}
+			if err := req.Validate(); err != nil {
+				return "err"
+			}
+			return "ok"
+		}},
+		{"samlsp.ParseMetadata", metas, func(b []byte) string {
+			if _, err := samlsp.ParseMetadata(b); err != nil {
+				return "err"
+			}
+			return "ok"
+		}},
+		{"samlidp PUT /services", metas, func(b []byte) string {
+			rec := httptest.NewRecorder()
+			r := httptest.NewRequest("PUT", "/services/x", bytes.NewReader(b))
+			srv.ServeHTTP(rec, r)
+			return fmt.Sprint(rec.Code)
+		}},
+	}
+	for _, t := range targets {
+		for i := 0; i < n; i++ {
+			raw := readFixture(t.pool[c.rng.Intn(len(t.pool))])
+			if raw == nil {
+				continue
+			}
+			in := decode(raw)
+			if i > 0 { // i == 0: the unmutated fixture
+				in = c.mutate(in)
+			}
+			res := withTimeout(func() string { return t.run(in) }, 10*time.Second)
+			orc := panicOracle(res, t.name)
+			if res == "timeout" {
+				orc = "key=hang:" + t.name + " the call did not return within 10 s"
+			}
+			c.count("c09-fuzz-target", t.name)
+			c.count("c09-fuzz-result:"+t.name, strings.SplitN(res, " ", 2)[0])
+			if orc != "" {
+				c.emitOneWay("fuzz", []string{encStr(t.name), encBytes(in)}, res, orc)
+			}
+		}
+		c.emitOneWay("fuzz", []string{encStr(t.name)}, "done", "")
+	}
+}
+
+func (c *Ctx) c09Bombs() {
+	idp := c.newIDP(registry{})
+	cfg := baseCfg()
+	s := c.realSP(cfg)
+	limit := 10 * 1024 * 1024
+	for _, size := range []int{1 << 10, 1 << 20, limit - 100000, limit, limit + 1, limit + 100000, 100 << 20} {
+		pad := bytes.Repeat([]byte("A"), size)
+		payload := base64.StdEncoding.EncodeToString(deflate(append([]byte("<x>"), append(pad, []byte("</x>")...)...)))
+		for _, entry := range []string{"NewIdpAuthnRequest", "ValidateLogoutResponseRedirect"} {
+			var m0, m1 runtime.MemStats
+			runtime.GC()
+			runtime.ReadMemStats(&m0)
+			res := withTimeout(func() string {
+				if entry == "NewIdpAuthnRequest" {
+					r, _ := http.NewRequest("GET", idpSSOURL+"?"+url.Values{"SAMLRequest": {payload}}.Encode(), nil)
+					if _, err := saml.NewIdpAuthnRequest(idp, r); err != nil {
+						return "err"
+					}
+					return "ok"
+				}
+				if err := s.ValidateLogoutResponseRedirect(payload); err != nil {
+					if strings.Contains(err.Error(), "uncompress limit") {
+						return "err-limit"
+					}
+					return "err"
+				}
+				return "ok"
+			}, 60*time.Second)
+			runtime.ReadMemStats(&m1)
+			grown := int64(m1.TotalAlloc-m0.TotalAlloc) >> 20
+			orc := panicOracle(res, entry)
+			if size+7 > limit && res == "ok" {
+				orc = fmt.Sprintf("key=inflate-bound:%s an input inflating to %d bytes (> 10 MB) was accepted", entry, size+7)
+			}
+			if grown > 400 {
+				orc = fmt.Sprintf("key=inflate-alloc:%s %d MB allocated while handling a %d-byte (inflated) input", entry, grown, size)
+			}
+			c.count("c09-bomb", fmt.Sprintf("%s/%dMB/%s", entry, size>>20, res))
+			c.emitOneWay("bomb", []string{encStr(entry), fmt.Sprint(size)}, res, orc)
+		}
+	}
+}
+
+type faultRT struct{ mode string }
+
+type errReader struct{ n int }
+
+func (e *errReader) Read(p []byte) (int, error) {
+	if e.n <= 0 {
+		return 0, errors.New("connection reset by peer")
+	}
+	e.n--
+	copy(p, "<soap")
+	return 5, nil
+}
+
+func (f faultRT) RoundTrip(req *http.Request) (*http.Response, error) {
+	mk := func(code int, body io.Reader) *http.Response {
+		return &http.Response{StatusCode: code, Status: fmt.Sprint(code), Body: io.NopCloser(body), Header: http.Header{}, Request: req}
+	}
+	switch f.mode {
+	case "conn-error":
+		return nil, errors.New("dial tcp: connection refused")
+	case "500":
+		return mk(500, strings.NewReader("oops")), nil
+	case "404-html":
+		return mk(404, strings.NewReader("<html>not found</html>")), nil
+	case "truncated":
+		return mk(200, &errReader{n: 2}), nil
+	case "empty":
+		return mk(200, strings.NewReader("")), nil
+	case "garbage":
+		return mk(200, strings.NewReader("\x00\xff\xfe not xml")), nil
+	case "soap-fault":
+		return mk(200, strings.NewReader(`<soap-env:Envelope xmlns:soap-env="http://schemas.xmlsoap.org/soap/envelope/"><soap-env:Body><soap-env:Fault><faultcode>x</faultcode></soap-env:Fault></soap-env:Body></soap-env:Envelope>`)), nil
+	case "wrong-envelope":
+		return mk(200, strings.NewReader(`<Envelope xmlns="urn:other"><Body/></Envelope>`)), nil
+	case "no-body":
+		return mk(200, strings.NewReader(`<soap-env:Envelope xmlns:soap-env="http://schemas.xmlsoap.org/soap/envelope/"/>`)), nil
+	case "comment-only":
+		return mk(200, strings.NewReader(`<!-- nothing -->`)), nil
+	default: // two bodies
+		return mk(200, strings.NewReader(`<soap-env:Envelope xmlns:soap-env="http://schemas.xmlsoap.org/soap/envelope/"><soap-env:Body/><soap-env:Body/></soap-env:Envelope>`)), nil
+	}
+}
+
+func (c *Ctx) c09Resolver() {
+	cfg := baseCfg()
+	setGlobals(cfg, ms(baseTime))
+	for _, mode := range []string{"conn-error", "500", "404-html", "truncated", "empty", "garbage", "soap-fault", "wrong-envelope", "no-body", "comment-only", "two-bodies"} {
+		s := c.realSP(cfg)
+		s.IDPMetadata.IDPSSODescriptors[0].ArtifactResolutionServices = []saml.Endpoint{{Binding: saml.SOAPBinding, Location: "https://idp.example.com/saml/artifact"}}
+		s.HTTPClient = &http.Client{Transport: faultRT{mode}}
+		saml.RandReader = &detReader{c: c}
+		res := withTimeout(func() string {
+			req, _ := http.NewRequest("POST", cfg.Acs, nil)
+			req.Form = url.Values{"SAMLart": {"AAQAAMFbLinlXaCM+FIxiDwGOLAy2T71gbpO7ZhNzAgEANlB90ECfpNEVLg="}}
+			req.PostForm = req.Form
+			return canonParse(s.ParseResponse(req, []string{"id-req1"}))
+		}, 10*time.Second)
+		orc := panicOracle(res, "ParseResponse/artifact:"+mode)
+		if orc == "" && !strings.HasPrefix(res, "err") {
+			orc = "key=artifact-fault:" + mode + " a failing artifact resolution did not yield an InvalidResponseError: " + res
+		}
+		c.count("c09-resolver", mode+"/"+res)
+		c.emitOneWay("resolver", []string{encStr(mode)}, res, orc)
+	}
+}
+
+// key-descriptor layouts through the real IdP (getSPEncryptionCert is unexported: reached via MakeAssertionEl)
+func (c *Ctx) c09KeyDescriptors() {
+	spCert := base64.StdEncoding.EncodeToString(c.key("sp").Cert.Raw)
+	layouts := [][]mdKey{
+		nil,
+		{{Use: "encryption", Certs: []string{spCert}}},
+		{{Use: "encryption", Certs: nil}},
+		{{Use: "encryption", Certs: []string{""}}},
+		{{Use: "encryption", Certs: []string{"", spCert}}},
+		{{Use: "", Certs: []string{spCert}}},
+		{{Use: "", Certs: nil}},
+		{{Use: "", Certs: []string{""}}},
+		{{Use: "signing", Certs: []string{spCert}}},
+		{{Use: "signing", Certs: []string{spCert}}, {Use: "encryption", Certs: nil}},
+		{{Use: "signing", Certs: []string{spCert}}, {Use: "", Certs: []string{spCert}}},
+		{{Use: "encryption", Certs: []string{"@@not base64@@"}}},
+		{{Use: "encryption", Certs: []string{"Z2FyYmFnZQ=="}}},
+		{{Use: "", Certs: []string{"Z2FyYmFnZQ=="}}},
+		{{Use: "encryption", Certs: []string{" " + spCert[:40] + "\n" + spCert[40:] + " "}}},
+		{{Use: "ENCRYPTION", Certs: []string{spCert}}},
+		{{Use: "encryption", Certs: []string{""}}, {Use: "", Certs: []string{spCert}}},
+	}
+	for li, keys := range layouts {
+		md := mdEntity{EntityID: spEntity, Descs: []mdDesc{{ACS: []mdEndpoint{{Binding: saml.HTTPPostBinding, Location: acsURL, Index: 1}}, Keys: keys}}}
+		reg := registry{spEntity: {kind: "f", md: md}}
+		now := baseTime
+		saml.TimeNow = func() time.Time { return now }
+		saml.RandReader = &detReader{c: c}
+		idp := c.newIDP(reg)
+		res := withTimeout(func() string {
+			w := httptest.NewRecorder()
+			r, _ := http.NewRequest("GET", "https://idp.example.com/login/sp", nil)
+			idp.ServeIDPInitiated(w, r, spEntity, "relay")
+			if w.Code != 200 {
+				return "err"
+			}
+			body := w.Body.String()
+			o, _ := observeForm([]byte(body))
+			v, _ := inputVal(o, "SAMLResponse")
+			x, _ := base64.StdEncoding.DecodeString(v)
+			switch {
+			case bytes.Contains(x, []byte("EncryptedAssertion")):
+				return "ok cert"
+			case bytes.Contains(x, []byte("<saml:Assertion")):
+				return "ok none"
+			}
+			return "ok-unknown"
+		}, 10*time.Second)
+		// model tokens
+		toks := []string{fmt.Sprint(len(keys))}
+		for _, k := range keys {
+			toks = append(toks, encStr(k.Use))
+			toks = append(toks, encStrList(k.Certs)...)
+		}
+		orc := panicOracle(res, "ServeIDPInitiated/key-descriptors")
+		c.count("c09-keydesc", fmt.Sprintf("layout%d/%s", li, res))
+		// the model's `ok cert <data>` still has to decode; garbage certificates are errors of the decoding step
+		c.emitOneWay("enccert-layout", toks, res, orc)
+	}
+}
+
+func min(a, b int) int {
+	if a < b {
+		return a
+	}
+	return b
+}
+
+func max(a, b int) int {
+	if a > b {
+		return a
+	}
+	return b
+}
+
+// ---- part 2: byte-level mutation of the repository's fixtures, inflate bombs, resolver faults, key descriptors ----
